@@ -11,7 +11,7 @@ COMMON_ASSUMPTIONS = [
 
 PROPS = {
     "C01": {
-        "rules": ["T4", "T5", "T11", "T6", "T3", "G1", "G1c", "G2", "G3", "G4", "G5", "K6", "T13", "N2"],
+        "rules": ["T4", "T5", "T11", "T6", "T3", "G1", "G1c", "G2", "G3", "G4", "G5", "K6", "T13", "N2", "G7"],
         "decides": "Per-keyword conformance skeleton: one type-guarded validator per keyword, spec comparison "
                    "operators, bool-aware deep JSON equality, member resolution cases, composition counting, "
                    "validate-all-then-construct, recursive parsing of every sub-schema position.",
@@ -27,7 +27,7 @@ PROPS = {
         "not_decided": "equality of the executed module with the parsed model; de-duplication correctness.",
     },
     "C03": {
-        "rules": ["K2", "K4", "T1", "T3", "T6", "T13", "D3", "T15", "K11", "T16"],
+        "rules": ["K2", "K4", "T1", "T3", "T6", "T13", "D3", "T15", "K11", "T16", "K13", "T17"],
         "decides": "no keyword value is overwritten or deleted on the way out; properties and required are "
                    "emitted under JSON names; every constructor keyword is in the enumeration the serializer "
                    "walks; every nested position is recursed; type names invert the parser's.",
@@ -40,20 +40,20 @@ PROPS = {
         "not_decided": "key collisions between JSON and Python names in the result; which composition branch builds it.",
     },
     "C05": {
-        "rules": ["G6", "G7", "K4", "K3", "P1"],
+        "rules": ["G6", "G7", "K4", "K3", "P1", "G3", "K1"],
         "decides": "the three-way default/marker/value decision and its never-an-error handler in Element.__call__ "
                    "and Object.__new__/__init__; required waived exactly for defaulted properties; placeholders "
                    "keyed in the look-up name space; defaults never tested by truthiness.",
         "not_decided": "conversion 'exactly as if supplied' for nested defaults beyond G6 + purity.",
     },
     "C06": {
-        "rules": ["T1", "T2", "T6", "K1", "K2", "K3", "K4", "K7", "D3", "T13", "K9", "K10", "N4", "T3", "K12"],
+        "rules": ["T1", "T2", "T6", "K1", "K2", "K3", "K4", "K7", "D3", "T13", "K9", "K10", "N4", "T3", "K12", "R3", "K13", "N1"],
         "decides": "structural preconditions of the round trip: parser, serializer, repr and class generator "
                    "enumerate the same keywords; nothing read is dropped; falsy values survive; names keep their kind.",
         "not_decided": "the identity itself.",
     },
     "C07": {
-        "rules": ["K1", "K3", "K7", "K5", "K8", "K9", "G10", "K10", "T3"],
+        "rules": ["K1", "K3", "K7", "K5", "K8", "K9", "G10", "K10", "T3", "K13"],
         "decides": "a default extracted from the schema is re-attached on every path, never filtered by "
                    "truthiness; only the auto-title annotation is stripped from literals; the description reaches "
                    "the docstring only through an escaping emitter.",
@@ -94,7 +94,7 @@ PROPS = {
         "not_decided": "correctness of the ordering for every graph (algorithmic, not a shape).",
     },
     "C12": {
-        "rules": ["N1", "N2", "N3", "T7", "T14", "T12"],
+        "rules": ["N1", "N2", "N3", "T7", "T14", "T12", "N4", "K4"],
         "decides": "output alphabet / first character of mapped attribute names, reserved suffix applied last and "
                    "closed; collision handling present; class-name guard present; reserved list covers instance storage.",
         "not_decided": "that dedupe's numeric suffixes never collide with formatted titles.",
